@@ -330,6 +330,11 @@ def gen_views(rnd):
             loc.insert(0, ('zlocbad', rnd.choice(['nosuchname * 2', 'sum(category)'])))
         f = rnd.choice(BAD_FILTERS) if rnd.random() < .12 else gfilter(rnd)
         views.append({'name': 'V%d' % i, 'locals': loc, 'filter': f})
+    if any(n == 'zbad' for n, _ in gl):
+        # ... and views that READ the variable that has no value (as divisor, dividend, operand of a comparison): nothing can be computed from it
+        for k, f in enumerate(rnd.sample(['total / zbad < 0.5', 'count(payments) % zbad == 0', 'zbad / total <= 1', 'total > 0 and total / zbad >= 0', 'zbad == 0 or total % zbad < 1',
+                                          'not (months / zbad > 1)'], rnd.randint(1, 3))):
+            views.insert(rnd.randint(0, len(views)), {'name': 'ReadsBad%d' % k, 'locals': [], 'filter': f})
     if rnd.random() < .5:
         # views with the SAME filter text and the same local variable names but other values: each is judged with its own variables
         f = rnd.choice(['total > thr', 'months >= lim', 'total > thr and months >= 1', 'sum(payments) >= thr or lim > 100'])
